@@ -186,7 +186,9 @@ def _pattern(M, pattern):
     'ragged'  - additionally, individual 0 misses the last time point and
                 individual 1 the first (every cell keeps >= 1 value)
     'sparse'  - only individual i is measured at time i mod n_t ... plus a
-                fully measured last individual"""
+                fully measured last individual
+    'uneven'  - the last time point is measured for the last individual
+                only"""
     n_ids, n_obs, n_t = len(M), len(M[0]), len(M[0][0])
     out = [[[M[i][o][t] for t in range(n_t)] for o in range(n_obs)]
            for i in range(n_ids)]
@@ -196,6 +198,12 @@ def _pattern(M, pattern):
         for o in range(n_obs):
             out[0][o][n_t - 1] = NAN
             out[1][o][0] = NAN
+    if pattern == 'uneven':
+        # time point 0 is measured for everybody, the last one only for the
+        # last individual: different counts per time point
+        for i in range(n_ids - 1):
+            for o in range(n_obs):
+                out[i][o][n_t - 1] = NAN
     if pattern == 'sparse':
         for i in range(n_ids - 1):
             for o in range(n_obs):
@@ -241,6 +249,26 @@ def case_missing(B, cfg):
                 B.eq('sens[%d,%d,%d] = d score / d simulated (missing '
                      'values)' % (s, o, t), sens[s][o][t],
                      g[(s * n_obs + o) * n_t + t])
+    # re-ordering the time points of a filter that holds missing values
+    # (the number of measured individuals differs between time points)
+    if n_t >= 2:
+        for order in itertools.permutations(range(n_t)):
+            if list(order) == list(range(n_t)):
+                continue
+            f2 = make(kind, ps.arr(B, Mp))
+            f2.sort_times(list(order))
+            Xo = [[[X[s][o][order[k]] for k in range(n_t)]
+                   for o in range(n_obs)] for s in range(n_sim)]
+            B.eq('missing values, sort_times%r: score unchanged' % (order,),
+                 f2.compute_log_likelihood(ps.arr(B, Xo)), v)
+            sc, se = f2.compute_sensitivities(ps.arr(B, Xo))
+            for s in range(n_sim):
+                for o in range(n_obs):
+                    for k in range(n_t):
+                        B.eq('missing values, sort_times%r: sens[%d,%d,%d] '
+                             'in input order' % (order, s, o, k),
+                             se[s][o][k],
+                             g[(s * n_obs + o) * n_t + order[k]])
 
 
 def case_composed(B, cfg):
@@ -324,10 +352,11 @@ def jobs(tier):
     for kind in FILTERS:
         n_sim = 4 if kind == 'mixture' else 2
         pats = [('pad', 1, 1, 1), ('pad', 2, 1, 2), ('ragged', 2, 1, 2),
-                ('sparse', 3, 1, 2)]
+                ('sparse', 3, 1, 2), ('uneven', 2, 1, 2)]
         if not q:
             pats += [('ragged', 2, 2, 2), ('sparse', 3, 2, 2),
-                     ('pad', 2, 2, 1)]
+                     ('pad', 2, 2, 1), ('uneven', 3, 1, 3),
+                     ('uneven', 2, 2, 2)]
         for (pat, n_ids, n_obs, n_t) in pats:
             if kind.endswith('kde') and n_ids * n_t > 4:
                 continue
@@ -355,12 +384,16 @@ BOUNDS = dict(
           'times 1..2 (parametric filters also 2x2x2), simulated individuals '
           '2..3 (4 for the mixture; KDE with 3 simulated individuals only on '
           'one cell); composed filters over 3 pairs with splits (1,1), (2,1); '
-          'all time permutations',
+          'all time permutations; missing values: an all-missing extra '
+          'individual, ragged, sparse and uneven (different numbers of '
+          'measured individuals per time point) patterns on <= 3 individuals '
+          'x 2 times, each also under every re-ordering of the time points',
     thorough='up to 3 times, 4 simulated individuals (6 for the mixture), '
              'composed pairs including KDE and mixture filters',
-    outside='missing values (numpy.ma cannot carry symbolic payloads: the '
-            'padding invariance is not claimed); degenerate simulated '
-            'samples (zero variance); larger arrays')
+    outside='degenerate simulated samples (zero variance); larger arrays; '
+            'missing values are carried by a stub of numpy.ma for symbolic '
+            'payloads (chisym/facade_ma.py), cross-checked against the real '
+            'numpy.ma by the differential float run of every case')
 TRUSTED = ['z3', 'canonical exp/log rules (log-sum-exp shift follows from '
            'exp(a-m) = exp(a)/exp(m) and log(c x) = log c + log x)',
            'object-dtype NumPy (np.var, np.mean, np.max)']
